@@ -73,3 +73,11 @@ Theorem stats_pinned_refuted :
   srun_with false false stats_new [SDown 2147483648; STick; SDown 2147483648; STick] [] = Ok [(Some 0, Some 0, 0)] /\
   fits [SDown 2147483648; STick; SDown 2147483648; STick] 0 0 0.
 Proof. split; [vm_compute; reflexivity|]. split; [vm_compute; reflexivity|]. cbn [fits]. unfold two64s. lia. Qed.
+
+(* the boolean form used by the correspondence oracle is the hypothesis of the theorem *)
+Lemma fitsb_fits : forall ops d u x, fitsb ops d u x = true -> fits ops d u x.
+Proof.
+  induction ops as [|o ops IH]; intros d u x H; [exact I|].
+  destruct o; cbn [fitsb fits] in *; try (apply andb_true_iff in H; destruct H as [A B]; split; [lia | apply IH, B]).
+  apply IH, H.
+Qed.
